@@ -378,7 +378,13 @@ func (f *dsFakeServer) Close() error                { return nil }
 
 // dsReadSchema runs atp.Client.ReadSchema against a server sending the given schema description.
 func dsReadSchema(desc any) (*schema.SchemaSchema, error) {
-	b, err := cbor.Marshal(atp.HelloMessage{Version: atp.ProtocolVersion, Schema: desc})
+	return dsReadSchemaV(desc, atp.ProtocolVersion)
+}
+
+// dsReadSchemaV: the same with a hello message announcing the given protocol version (the client
+// supports servers of version 1 and 3; the schema a hello carries does not depend on the version).
+func dsReadSchemaV(desc any, version int64) (*schema.SchemaSchema, error) {
+	b, err := cbor.Marshal(atp.HelloMessage{Version: version, Schema: desc})
 	if err != nil {
 		return nil, fmt.Errorf("harness: hello not encodable: %w", err)
 	}
@@ -516,7 +522,7 @@ func dsPluginGroupOf(s *dsSink, d *dsGen, p *dsPlugin) {
 	}
 	_ = cres
 	legs := append([]dsLeg{}, dsLegs...)
-	legs = append(legs, dsLeg{"hello", dsCBOR})
+	legs = append(legs, dsLeg{"hello", dsCBOR}, dsLeg{"hello-v1", dsCBOR})
 	if callableDesc != nil {
 		legs = append(legs, dsLeg{"callable", func(any) (any, error) { return callableDesc, nil }},
 			dsLeg{"server", func(any) (any, error) { return dsCBOR(callableDesc) }})
@@ -565,6 +571,8 @@ func dsPluginLegs(s *dsSink, d *dsGen, p *dsPlugin, orig *schema.SchemaSchema, d
 			var err error
 			if leg.name == "hello" {
 				sc, err = dsReadSchema(desc)
+			} else if leg.name == "hello-v1" {
+				sc, err = dsReadSchemaV(desc, 1)
 			} else if leg.name == "server" {
 				sc, err = dsHelloViaServer(callable)
 			} else {
